@@ -105,6 +105,12 @@ func Build(rng *rand.Rand, client int, fc uint8, size int, exc bool) (packet.Req
 		if fc == 17 {
 			p.ServerID = libx.RandBytes(rng, []int{1, 1 + rng.Intn(60), 120}[size])
 			p.Additional = libx.RandBytes(rng, []int{0, rng.Intn(30), 120}[size])
+			if size == 2 && rng.Intn(2) == 0 {
+				// the largest frame the framing allows (260 bytes TCP, 256 RTU): only FC17 can fill it completely
+				if room := specref.MaxADU(fr) - len(p.Encode(fr)); room > 0 {
+					p.Additional = append(p.Additional, libx.RandBytes(rng, room)...)
+				}
+			}
 		}
 	}
 	return req, q, p.Encode(fr), nil
@@ -426,6 +432,31 @@ func run(ci any, r *mon.Rec) {
 		}
 		j2.schedule(xport.Cuts(len(rep), []int{3, 5}, 0), 72)
 		j2.schedule(xport.Cuts(len(rep), []int{1, 5}, 1), 73)
+		// a second hostile payload: a reply that begins with the very bytes of the request (byte count = high byte of the
+		// start address, first data bytes = low address byte, quantity and CRC of the request): nothing of it is an echo
+		q3 := specref.Req{FC: c.FC, Unit: unit, Qty: uint16(3 + rng.Intn(100))}
+		bc := int(q3.Qty) * 2
+		if c.FC <= 2 {
+			q3.Qty = uint16(33 + rng.Intn(900))
+			bc = (int(q3.Qty) + 7) / 8
+		}
+		q3.Addr = uint16(bc)<<8 | uint16(rng.Intn(256))
+		if rq3, err := libx.NewRequest(specref.RTU, q3); err == nil {
+			rb := rq3.Bytes()
+			data := libx.RandBytes(rng, bc)
+			copy(data, rb[3:8])
+			rep3 := specref.Resp{FC: c.FC, Unit: unit, Data: data}.Encode(specref.RTU)
+			if bytes.Equal(rep3[:8], rb) {
+				r.Cover("crc-lookalike", "reply-begins-with-the-request-bytes")
+				j3 := &judge{c: c, r: r, req: rq3, q: q3, reply: rep3}
+				j3.schedule(xport.Cuts(len(rep3), nil, 0), 74)
+				for _, k := range []int{1, 7, 8, 9, len(rep3) / 2} {
+					if k < len(rep3)-2 {
+						j3.schedule(xport.Cuts(len(rep3), []int{k}, k%2), mon.Mix(75, uint64(k)))
+					}
+				}
+			}
+		}
 	case "session", "session-slow":
 		// several exchanges on ONE client; every response is kept and re-verified after the later calls
 		// half of the sessions use a short total read timeout and idle longer than that between calls: time spent idle must
